@@ -903,6 +903,9 @@ m("c07-gas-sum-unchecked", "C07", "app/ante/evm/setup_ctx.go",
 m("c01-estimation-uses-node-tracer", "C01", "x/evm/keeper/grpc_query.go",
   "\t\tif fromType == types.Internal {\n\t\t\ttracer = types.NewNoOpTracer()\n\t\t}\n", "\t\tif fromType == types.RPC {\n\t\t\ttracer = types.NewNoOpTracer()\n\t\t}\n",
   "EstimateGasInternal#tracer", "internal estimations run with the node's configured tracer again")
+m("c01-begin-block-gas-left", "C01", "app/app.go",
+  "\tctx.GasMeter().RefundGas(ctx.GasMeter().GasConsumed(), \"begin block gas is not charged to transactions\")\n", "",
+  "meter-refunded-after-the-begin-blockers", "the begin blockers' gas stays on the block context")
 for prop in ("C16", "C07"):
     m("c%s-gas-meter-without-precharge" % prop[1:], prop, "precompiles/common/precompile.go",
       "sdk.NewGasMeter(initialGas + contract.Gas)", "sdk.NewGasMeter(contract.Gas)",
